@@ -281,6 +281,9 @@ class C18(Check):
             pairs = gen_pairs(rng)
             out.append((f'qs urlencode {show_pairs(pairs)}', hs(urllib.parse.urlencode(pairs)),
                         dict(kind='enc', text=str(pairs))))
+            out.append((f'qs urlencodeq {show_pairs(pairs)}',
+                        hs(urllib.parse.urlencode(pairs, quote_via=urllib.parse.quote)),
+                        dict(kind='enc', text=str(pairs))))
         return out
 
     # ------------------------------------------------------------------
